@@ -109,7 +109,18 @@ class Run:
 
     def start(self):
         """Create the clock and play the root routine (call from the main
-        thread)."""
+        thread).  In real-time mode the library's main lock is held meanwhile
+        (Routine.play takes it anyway): `main.current_tt` is process-global and
+        switched by the clock threads under that lock, so without it "the
+        current thread's time" read by play() could be another clock's
+        routine's."""
+        if self.mode == 'rt':
+            with self.sc.main._main_lock:
+                self._start()
+        else:
+            self._start()
+
+    def _start(self):
         sc = self.sc
         clk = self.make_clock()
         if clk is None:
